@@ -52,76 +52,121 @@ where
     Ok((&i[4 + body..], v9::FlowSet { header, body: b }))
 }
 
-/// P (V9): header fields as sent; flowsets = the first `count` flowsets (fewer if the
-/// buffer ends first); consumed = 20 + sum(max(length,4)); any failing flowset fails the
-/// packet (C07 for V9: unknown id => whole packet is an error).
-#[kani::proof]
-#[kani::stub(core::fmt::write, no_fmt)]
-#[kani::stub(netflow_parser::variable_versions::v9::FlowSet::parse, v9_flowset_model)]
-fn p_v9_packet() {
-    const N: usize = 18 + 7 + 7 + 4;
-    let buf: [u8; N] = kani::any();
-    let count = be16(&buf, 0);
-    kani::assume(count <= 3);
-    let mut p = v9::V9Parser::default();
-    // reference walk
-    let mut pos = 18usize;
-    let mut k = 0usize;
-    let mut offs = [0usize; 3];
-    let mut fail = false;
-    let mut i = 0;
-    while i < 3 {
-        if i < count as usize && !fail && pos < N {
-            if N - pos < 4 {
-                fail = true;
-            } else {
-                let id = be16(&buf, pos);
-                let len = be16(&buf, pos + 2);
-                let body = if len < 4 { 0 } else { (len - 4) as usize };
-                if N - pos < 4 + body || id > 1 {
-                    fail = true;
-                } else {
-                    kani::assume(body < 4);
-                    offs[k] = pos;
-                    k += 1;
-                    pos += 4 + body;
+/// P (V9), one harness per shape: `count` and the flowset sequence are written (kind 1 =
+/// id 0 flowset of 6 bytes, kind 2 = id 1 flowset of 7 bytes, kind 3 = unknown data id
+/// 300 of 8 bytes, kind 4 = id 0 flowset announcing 40 bytes, 0 = none), `$tail` extra
+/// bytes follow; header words and padding bytes are symbolic.  Decides: header as sent;
+/// flowsets = the first `count` flowsets (fewer if the buffer ends first); consumed = 20 +
+/// sum(length); a failing flowset (unknown id, truncated, stray bytes shorter than a
+/// flowset header while count is not exhausted) fails the whole packet (C07 for V9).
+macro_rules! p_v9_packet {
+    ($name:ident, $count:expr, $kinds:expr, $tail:expr) => {
+        #[kani::proof]
+        #[kani::stub(core::fmt::write, no_fmt)]
+        #[kani::stub(netflow_parser::variable_versions::v9::FlowSet::parse, v9_flowset_model)]
+        fn $name() {
+            const COUNT: u16 = $count;
+            const KINDS: [u8; 3] = $kinds;
+            const TAIL: usize = $tail;
+            const fn klen(k: u8) -> usize {
+                match k {
+                    1 => 6,
+                    2 => 7,
+                    3 => 8,
+                    4 => 6,
+                    _ => 0,
                 }
             }
-        }
-        i += 1;
-    }
-    let r = v9::V9::parse(&buf, &mut p);
-    match &r {
-        Ok((rem, pkt)) => {
-            assert!(!fail);
-            assert!(rem.len() == N - pos);
-            assert!(pkt.header.version == 9 && pkt.header.count == count);
-            assert!(pkt.header.sys_up_time == be32(&buf, 2));
-            assert!(pkt.header.unix_secs == be32(&buf, 6));
-            assert!(pkt.header.sequence_number == be32(&buf, 10));
-            assert!(pkt.header.source_id == be32(&buf, 14));
-            assert!(pkt.flowsets.len() == k);
-            let mut j = 0;
-            while j < 3 {
-                if j < k {
-                    let fs = &pkt.flowsets[j];
-                    assert!(fs.header.flowset_id == be16(&buf, offs[j]));
-                    assert!(fs.header.length == be16(&buf, offs[j] + 2));
+            const N: usize = 18 + klen(KINDS[0]) + klen(KINDS[1]) + klen(KINDS[2]) + TAIL;
+            let mut buf: [u8; N] = kani::any();
+            put16(&mut buf, 0, COUNT);
+            let mut pos = 18;
+            let mut i = 0;
+            while i < 3 {
+                match KINDS[i] {
+                    1 => {
+                        put16(&mut buf, pos, 0);
+                        put16(&mut buf, pos + 2, 6);
+                    }
+                    2 => {
+                        put16(&mut buf, pos, 1);
+                        put16(&mut buf, pos + 2, 7);
+                    }
+                    3 => {
+                        put16(&mut buf, pos, 300);
+                        put16(&mut buf, pos + 2, 8);
+                    }
+                    4 => {
+                        put16(&mut buf, pos, 0);
+                        put16(&mut buf, pos + 2, 40);
+                    }
+                    _ => {}
                 }
-                j += 1;
+                pos += klen(KINDS[i]);
+                i += 1;
             }
-            kani::cover!(k == 3);
-            kani::cover!(k == 2 && count == 2 && rem.len() > 0);
-            kani::cover!(k == 0 && count == 0);
+            // reference walk
+            let mut pos = 18usize;
+            let mut k = 0usize;
+            let mut offs = [0usize; 3];
+            let mut fail = false;
+            let mut i = 0;
+            while i < 3 {
+                if i < COUNT as usize && !fail && pos < N {
+                    if N - pos < 4 {
+                        fail = true;
+                    } else {
+                        let id = be16(&buf, pos);
+                        let len = be16(&buf, pos + 2);
+                        let body = if len < 4 { 0 } else { (len - 4) as usize };
+                        if N - pos < 4 + body || id > 1 {
+                            fail = true;
+                        } else {
+                            offs[k] = pos;
+                            k += 1;
+                            pos += 4 + body;
+                        }
+                    }
+                }
+                i += 1;
+            }
+            let mut p = v9::V9Parser::default();
+            let r = v9::V9::parse(&buf, &mut p);
+            match &r {
+                Ok((rem, pkt)) => {
+                    assert!(!fail);
+                    assert!(rem.len() == N - pos);
+                    assert!(pkt.header.version == 9 && pkt.header.count == COUNT);
+                    assert!(pkt.header.sys_up_time == be32(&buf, 2));
+                    assert!(pkt.header.unix_secs == be32(&buf, 6));
+                    assert!(pkt.header.sequence_number == be32(&buf, 10));
+                    assert!(pkt.header.source_id == be32(&buf, 14));
+                    assert!(pkt.flowsets.len() == k);
+                    let mut j = 0;
+                    while j < 3 {
+                        if j < k {
+                            let fs = &pkt.flowsets[j];
+                            assert!(fs.header.flowset_id == be16(&buf, offs[j]));
+                            assert!(fs.header.length == be16(&buf, offs[j] + 2));
+                        }
+                        j += 1;
+                    }
+                }
+                Err(_) => {
+                    assert!(fail);
+                }
+            }
+            core::mem::forget(r);
+            core::mem::forget(p);
         }
-        Err(_) => {
-            assert!(fail);
-            kani::cover!(k == 1);
-        }
-    }
-    core::mem::forget(r);
-    core::mem::forget(p);
+    };
 }
+p_v9_packet!(p_v9_two_sets_tail, 2, [1, 2, 0], 5);
+p_v9_packet!(p_v9_count_gt_sets, 3, [1, 0, 0], 0);
+p_v9_packet!(p_v9_count_gt_sets_stray, 3, [2, 0, 0], 2);
+p_v9_packet!(p_v9_unknown_second, 2, [1, 3, 0], 0);
+p_v9_packet!(p_v9_truncated_second, 2, [2, 4, 0], 0);
+p_v9_packet!(p_v9_count0_tail, 0, [0, 0, 0], 6);
 
 /// IPFIX domain: set id 2 with length 12 holding one plain specifier with non-zero length
 /// (=> template cached); set id > 255 unknown to the (otherwise empty) caches => Err.
@@ -160,82 +205,100 @@ where
     Ok((&i[12..], ipfix::FlowSet { header: ipfix::FlowSetHeader { header_id: 2, length: 12 }, body: ipfix::FlowSetBody::Template(t) }))
 }
 
+/// P (IPFIX), one harness per shape: message length and set sequence written (kind 1 =
+/// template set of 12 bytes, kind 2 = data set for the undefined id 300 of 8 bytes), `$tail`
+/// bytes follow the message, `$extra` is added to the announced length (truncation);
+/// header words, template ids and field specifiers symbolic.
 macro_rules! p_ipfix {
-    ($name:ident, $remainder:expr) => {
+    ($name:ident, $kinds:expr, $tail:expr, $extra:expr, $expect_all:expr) => {
         #[kani::proof]
         #[kani::stub(core::fmt::write, no_fmt)]
         #[kani::stub(netflow_parser::variable_versions::ipfix::FlowSet::parse, ipfix_flowset_model)]
         fn $name() {
-            const N: usize = 14 + 12 + 12 + 6;
-            let buf: [u8; N] = kani::any();
-            let length = be16(&buf, 0);
-            let mut p = ipfix::IPFixParser::default();
-            let win = if length < 16 { 0 } else { (length - 16) as usize };
-            // reference walk over the sets inside the message length: every decodable set
-            // is reported (C05), an undecodable one (unknown template, C07) is omitted
-            let mut pos = 14usize;
-            let end = 14 + win;
-            let mut k = 0usize;
-            let mut offs = [0usize; 3];
-            let mut skipped_then_ok = false;
+            const KINDS: [u8; 3] = $kinds;
+            const TAIL: usize = $tail;
+            const EXTRA: usize = $extra;
+            const fn klen(k: u8) -> usize {
+                match k {
+                    1 => 12,
+                    2 => 8,
+                    _ => 0,
+                }
+            }
+            const BODY: usize = klen(KINDS[0]) + klen(KINDS[1]) + klen(KINDS[2]);
+            const N: usize = 14 + BODY + TAIL;
+            let mut buf: [u8; N] = kani::any();
+            let length = (16 + BODY + EXTRA) as u16;
+            put16(&mut buf, 0, length);
+            let mut pos = 14;
+            let mut ntmpl = 0usize;
+            let mut tmpl_off = [0usize; 3];
+            let mut tmpl_before_skip = 0usize;
             let mut skipped = false;
             let mut i = 0;
             while i < 3 {
-                if end <= N && end - pos >= 4 {
-                    let id = be16(&buf, pos);
-                    let len = be16(&buf, pos + 2);
-                    let body = if len < 4 { 0 } else { (len - 4) as usize };
-                    if end - pos >= 4 + body {
-                        if id == 2 {
-                            if skipped {
-                                skipped_then_ok = true;
-                            }
-                            offs[k] = pos;
-                            k += 1;
-                        } else {
-                            skipped = true;
+                match KINDS[i] {
+                    1 => {
+                        put16(&mut buf, pos, 2);
+                        put16(&mut buf, pos + 2, 12);
+                        put16(&mut buf, pos + 6, 1);
+                        buf[pos + 8] &= 0x7f;
+                        tmpl_off[ntmpl] = pos;
+                        ntmpl += 1;
+                        if !skipped {
+                            tmpl_before_skip += 1;
                         }
-                        pos += 4 + body;
-                    } else {
-                        pos = end;
                     }
+                    2 => {
+                        put16(&mut buf, pos, 300);
+                        put16(&mut buf, pos + 2, 8);
+                        skipped = true;
+                    }
+                    _ => {}
                 }
+                pos += klen(KINDS[i]);
                 i += 1;
             }
-            if $remainder {
-                kani::assume(!skipped_then_ok);
-            } else {
-                kani::assume(skipped_then_ok);
+            // every template set must carry a non-zero field length (else the set is refused)
+            let mut j = 0;
+            while j < 3 {
+                if j < ntmpl {
+                    kani::assume(be16(&buf, tmpl_off[j] + 10) > 0);
+                }
+                j += 1;
             }
+            let mut p = ipfix::IPFixParser::default();
             let r = ipfix::IPFix::parse(&buf, &mut p);
             match &r {
                 Ok((rem, m)) => {
-                    assert!(end <= N);
-                    assert!(rem.len() == N - end);
+                    assert!(EXTRA <= TAIL);
+                    assert!(rem.len() == TAIL.wrapping_sub(EXTRA));
                     assert!(m.header.version == 10 && m.header.length == length);
                     assert!(m.header.export_time == be32(&buf, 2));
                     assert!(m.header.sequence_number == be32(&buf, 6));
                     assert!(m.header.observation_domain_id == be32(&buf, 10));
-                    assert!(m.flowsets.len() == k);
+                    // C05: every decodable set inside the message is reported, in order
+                    // (C07: the undecodable one is omitted).  $expect_all = false is the
+                    // witness of C05-sets-after-undecodable-dropped.
+                    let want = if $expect_all { ntmpl } else { tmpl_before_skip };
+                    if EXTRA == 0 {
+                        assert!(m.flowsets.len() == ntmpl);
+                    }
                     let mut j = 0;
                     while j < 3 {
-                        if j < k {
+                        if j < want && j < m.flowsets.len() {
                             match &m.flowsets[j].body {
-                                ipfix::FlowSetBody::Template(t) => assert!(t.template_id == be16(&buf, offs[j] + 4)),
+                                ipfix::FlowSetBody::Template(t) => assert!(t.template_id == be16(&buf, tmpl_off[j] + 4)),
                                 _ => assert!(false),
                             }
                         }
                         j += 1;
                     }
-                    kani::cover!(k == 2);
-                    kani::cover!(k == 1 && skipped);
-                    kani::cover!(k == 0 && length < 16);
                 }
                 Err(_) => {
                     // C14: a message length beyond the buffer is an error and nothing is learned
-                    assert!(end > N);
+                    assert!(EXTRA > TAIL);
                     assert!(p.templates.len() == 0);
-                    kani::cover!(true);
                 }
             }
             core::mem::forget(r);
@@ -243,6 +306,9 @@ macro_rules! p_ipfix {
         }
     };
 }
-p_ipfix!(p_ipfix_message, true);
+p_ipfix!(p_ipfix_two_templates_tail, [1, 1, 0], 3, 0, true);
+p_ipfix!(p_ipfix_template_then_unknown, [1, 2, 0], 0, 0, true);
+p_ipfix!(p_ipfix_truncated_after_template, [1, 2, 0], 0, 2, true);
+p_ipfix!(p_ipfix_header_only_tail, [0, 0, 0], 4, 0, true);
 // Known-finding witness C05-sets-after-undecodable-dropped
-p_ipfix!(p_ipfix_sets_after_skipped_kf, false);
+p_ipfix!(p_ipfix_sets_after_skipped_kf, [2, 1, 0], 0, 0, true);
